@@ -449,9 +449,15 @@ func makeServerContext(ctx context.Context) context.Context {
 	// cancellations work seamlessly.
 	newCtx := context.Context(noValuesContext{ctx})
 
-	if meta, ok := metadata.FromOutgoingContext(ctx); ok {
-		newCtx = metadata.NewIncomingContext(newCtx, meta)
+	// a handler always has incoming metadata, as over a network (where at
+	// least the transport's own keys are there): code that checks the "ok" of
+	// metadata.FromIncomingContext must not fail just because the caller
+	// attached nothing
+	meta, _ := metadata.FromOutgoingContext(ctx)
+	if meta == nil {
+		meta = metadata.MD{}
 	}
+	newCtx = metadata.NewIncomingContext(newCtx, meta)
 	newCtx = peer.NewContext(newCtx, &inprocessPeer)
 	newCtx = context.WithValue(newCtx, &clientContextKey, ctx)
 	return newCtx
